@@ -1,5 +1,6 @@
 PROP = {
-    "groups": ["filter", "filter-history", "filter-exit"],
+    "shared_groups": "also runs the neighbouring groups whose code can break this property: zmodem (described under C19)",
+    "groups": ["filter", "filter-history", "filter-exit", "zmodem"],
     "timeout": 600,
     "nontrivial_floor": 0.02,
     "rule": "group filter: the REAL trzsz.NewTrzszFilter over io.Pipes, all 16 option sets (DetectDragFile, DetectTraceLog, "
